@@ -163,6 +163,10 @@ def splice(text, metas, contracts, unit_name):
     # remove unused markers
     text = re.sub(r"^[ \t]*__rws_pt!\([A-Za-z0-9_]+\);[ \t]*\n", "", text, flags=re.M)
     left = re.findall(r"__rws_(?:pt|loop|iter)!\([^)]*\)", text)
+    # generated index loops (R-ENUM / R-FIND) without a contract get the obvious termination measure
+    text = re.sub(r"while (__rws_(?:i|fi)\d+) < (__rws_(?:v|fv)\d+)\.len\(\) \{(\s*)__rws_loop!\(\d+\);[ \t]*\n",
+                  lambda mo: "while %s < %s.len()\n    invariant %s <= %s.len(),\n    decreases %s.len() - %s\n{%s" % (
+                      mo.group(1), mo.group(2), mo.group(1), mo.group(2), mo.group(2), mo.group(1), mo.group(3)), text)
     # for-loops without a contract: drop the iterator marker (terminated by the loop marker of the same ordinal)
     text = re.sub(r"__rws_iter!\(\s*(\d+),\s*(.*?)\)(\s*\{\s*)__rws_loop!\(\1\);[ \t]*\n", r"\2\3", text, flags=re.S)
     text = re.sub(r"^[ \t]*__rws_loop!\(\d+\);[ \t]*\n", "", text, flags=re.M)
